@@ -1,13 +1,16 @@
 #!/bin/sh
-# try_mutant.sh <PID> <mutant dir> [tier]: confirm the demo (clean pass / mutated fail), run the check against the
-# mutated /repo, restore /repo.  Prints DEMO_CLEAN/DEMO_MUT/CHECK exit codes.
+# try_mutant.sh <PID> <mutant dir> [tier]: confirm the demo (clean pass / mutated fail) and run the check against the
+# mutated tree WITHOUT touching /repo: the patch is applied in a scratch worktree of /repo's HEAD (/tmp/wt/trial_<PID>)
+# which is put first on PYTHONPATH.  Prints DEMO_CLEAN / DEMO_MUT / CHECK exit codes.  Worktree removed afterwards.
 PID=$1; D=$2; TIER=${3:-quick}
-cd /repo || exit 2
-if [ -n "$(git status --porcelain -- pennylane | head -1)" ]; then echo "repo not clean"; exit 2; fi
-/venv/bin/python -W ignore $D/demo.py >/dev/null 2>&1; echo "DEMO_CLEAN=$?"
-git apply $D/patch.diff || { echo "patch does not apply"; exit 2; }
-/venv/bin/python -W ignore $D/demo.py >/dev/null 2>&1; echo "DEMO_MUT=$?"
-( cd /verif && ./check $PID --tier $TIER > /tmp/try_$PID.log 2>&1; echo "CHECK=$?" )
-git checkout -- pennylane
+WT=/tmp/wt/trial_$PID
+git -C /repo worktree remove --force $WT >/dev/null 2>&1
+mkdir -p /tmp/wt && git -C /repo worktree add --detach $WT HEAD >/dev/null 2>&1 || { echo "cannot create worktree"; exit 2; }
+cd $WT || exit 2
+PYTHONPATH=$WT /venv/bin/python -W ignore $D/demo.py >/dev/null 2>&1; echo "DEMO_CLEAN=$?"
+git apply $D/patch.diff || { echo "patch does not apply"; git -C /repo worktree remove --force $WT; exit 2; }
+PYTHONPATH=$WT /venv/bin/python -W ignore $D/demo.py >/dev/null 2>&1; echo "DEMO_MUT=$?"
+( cd /verif && PYTHONPATH=$WT ./check $PID --tier $TIER > /tmp/try_$PID.log 2>&1; echo "CHECK=$?" )
+cd /; git -C /repo worktree remove --force $WT
 grep -E "^(VIOLATION|KNOWN|MACHINERY|OK)" /tmp/try_$PID.log | head -3
 grep -E "^  " /tmp/try_$PID.log | head -2 | cut -c1-300
